@@ -252,7 +252,22 @@ fn drive<F: TagFrame, S: Signal<Frame = F> + Clone>(
                         avail
                     );
                 }
-                let got: Vec<F> = bs.next_frames().take(k).collect();
+                // half of the batches are leaked after use (`mem::forget`): what a batch handed out is
+                // consumed the moment it is yielded, whether or not its destructor ever runs
+                let got: Vec<F> = if k % 2 == 1 {
+                    let mut it = bs.next_frames();
+                    let mut v = Vec::new();
+                    for _ in 0..k {
+                        match it.next() {
+                            Some(f) => v.push(f),
+                            None => break,
+                        }
+                    }
+                    std::mem::forget(it);
+                    v
+                } else {
+                    bs.next_frames().take(k).collect()
+                };
                 for g in &got {
                     obs.note(g.bits());
                 }
